@@ -168,8 +168,15 @@ def ensure_run(tier, seed):
             return meta
         # drop caches of older tree states of this tier (disk)
         for name in os.listdir(common.WORK):
-            if name.startswith("pipeline-cache-%s-s%d-" % (tier, seed)) and os.path.isdir(os.path.join(common.WORK, name)):
-                shutil.rmtree(os.path.join(common.WORK, name), ignore_errors=True)
+            full = os.path.join(common.WORK, name)
+            if name.startswith("pipeline-cache-%s-s%d-" % (tier, seed)) and full != lock_path:
+                if os.path.isdir(full):
+                    shutil.rmtree(full, ignore_errors=True)
+                elif name.endswith(".lock"):
+                    try:
+                        os.remove(full)
+                    except OSError:
+                        pass
         tmp = d + ".tmp"
         shutil.rmtree(tmp, ignore_errors=True)
         os.makedirs(tmp)
